@@ -1,0 +1,5 @@
+//go:build !verif
+
+package shrex_getter //nolint:stylecheck // underscore in pkg name will be fixed with shrex refactoring
+
+// Verification hooks are compiled only with the `verif` build tag (see verif_on.go).
